@@ -471,6 +471,11 @@ def r6_components(program, rep):
     from . import C03, C04, C10
     rep.guard("C10-R1", C10.r1_tables, program, rep)
     rep.guard("C10-R1", C10.r1_entry_ctor, program, rep)
+    # the stages are handed the caller's own objects one after the other:
+    # none of the placement helpers may re-write them in place (C17-R1)
+    from . import C17
+    rep.guard("C17-R1", C17.r1_for, program, rep,
+              ["rig.place_and_route.place.utils"])
     rep.guard("C04-R2", C04.r2_default, program, rep)
     rep.guard("C04-R3", C04.r3_ranges, program, rep)
     rep.guard("C04-R5", C04.r5_contract, program, rep)
